@@ -188,10 +188,10 @@ def error_candidates(golden, sb):
     return out
 
 
-def benign_candidates(golden, kind):
+def benign_candidates(golden, kind, sb):
     out = []
     for c in golden.calls:
-        if c.fdpath and c.fdpath.startswith("<"):
+        if not engine.in_scope(c, sb):
             continue
         if kind == "EINTR" and c.name in ("read", "write", "openat"):
             out.append(c)
@@ -294,7 +294,7 @@ def run_case(case, env):
                 used = set()
                 fl = []
                 for pick, kind, n in step["fault"]["picks"]:
-                    cands = [c for c in benign_candidates(golden, kind) if c.idx not in used]
+                    cands = [c for c in benign_candidates(golden, kind, sb) if c.idx not in used]
                     if cands:
                         c = cands[pick % len(cands)]
                         used.add(c.idx)
